@@ -55,9 +55,18 @@ def list_lines(rng, tier):
     return out
 
 
-def classify(fn, arg, typed):
+def classify(fn, arg, typed, check_name=True):
     try:
         r = fn(arg)
+        if typed is typed_list and typed(r) and check_name:
+            # nothing invented: the reported name is text of the line itself
+            try:
+                text = arg.decode("utf-8") if isinstance(arg, bytes) else arg
+            except UnicodeDecodeError:
+                text = None
+            # (a line without any name part - nothing after the first blank - denotes the listed directory itself: '.')
+            if text is not None and " " in text.strip() and str(r[0]) not in text:
+                return "illtyped"
     except ValueError:
         return "ValueError"
     except Exception:
@@ -82,6 +91,7 @@ class FakeServer:
         self.pasv_reply = pasv_reply
         self.data = None
         self.lines_sent = 0
+        self.dots_sent = 0
 
     async def data_cb(self, r, w):
         self.data = (r, w)
@@ -115,6 +125,9 @@ class FakeServer:
                     await asyncio.sleep(0)
                 body = self.listings.get(arg, self.listings.get("*", b""))
                 self.lines_sent += body.count(b"\n")
+                for ln in body.split(b"\r\n"):
+                    if ln.endswith((b" .", b" ..")) or (ln and b" " not in ln.strip()):
+                        self.dots_sent += 1  # '.', '..' and name-less lines (= the directory itself) are not entries
                 dr, dw = self.data
                 dw.write(body)
                 dw.close()
@@ -135,7 +148,7 @@ def run_lister(listings, use_mlsd, recursive, budget=20000, pasv_reply=None):
     net.ctl_port = 21
     saved = aioftp.client.open_connection
     aioftp.client.open_connection = net.open_connection
-    rec = {"entry": "list", "outcome": "typed", "steps": 0, "budget": budget, "entries_returned": 0, "lines_sent": 0, "unparsable": 0}
+    rec = {"entry": "list", "outcome": "typed", "steps": 0, "budget": budget, "entries_returned": 0, "lines_sent": 0, "unparsable": 0, "dots": 0}
     try:
         fs = FakeServer(net, listings, use_mlsd, pasv_reply)
 
@@ -160,6 +173,7 @@ def run_lister(listings, use_mlsd, recursive, budget=20000, pasv_reply=None):
             rec["outcome"] = "Exception"
         rec["steps"] = min(loop.iterations, budget + 1)
         rec["lines_sent"] = fs.lines_sent
+        rec["dots"] = fs.dots_sent
     finally:
         aioftp.client.open_connection = saved
         loop.shutdown()
@@ -172,10 +186,12 @@ def run_into(chk, tier, seed):
     cl = aioftp.Client()
     for tname, fi, mk, text in list_lines(rng, tier):
         b = text if isinstance(text, bytes) else text.encode("utf-8")
-        cases.append({"entry": "parse_list_line", "outcome": classify(cl.parse_list_line, b, typed_list), "desc": [tname, fi, mk],
-                      "steps": 0, "budget": 0, "entries_returned": 0, "lines_sent": 0, "unparsable": 0})
-        cases.append({"entry": "parse_mlsx_line", "outcome": classify(cl.parse_mlsx_line, b, typed_list), "desc": [tname, fi, mk],
-                      "steps": 0, "budget": 0, "entries_returned": 0, "lines_sent": 0, "unparsable": 0})
+        # a line whose name field was removed altogether has no name to report (the parsers then answer '.')
+        named = not (mk in ("drop", "empty", "truncate", "space") and isinstance(fi, int) and fi == {"unix": 6, "unixd": 6, "unixl": 6, "win": 3, "winf": 3, "mlsx": 3}.get(tname, -1))
+        cases.append({"entry": "parse_list_line", "outcome": classify(cl.parse_list_line, b, typed_list, named), "desc": [tname, fi, mk],
+                      "steps": 0, "budget": 0, "entries_returned": 0, "lines_sent": 0, "unparsable": 0, "dots": 0})
+        cases.append({"entry": "parse_mlsx_line", "outcome": classify(cl.parse_mlsx_line, b, typed_list, named and tname == "mlsx"), "desc": [tname, fi, mk],
+                      "steps": 0, "budget": 0, "entries_returned": 0, "lines_sent": 0, "unparsable": 0, "dots": 0})
     payloads = ["227 ok (1,2,3,4,5,6)", "227 (1,2,3,4,5)", "227 ()", "227 no parens", "227 (a,b,c,d,e,f)", "227 (999,1,1,1,999,999)", "227 ((1,2,3,4,5,6))",
                 "229 (|||80|)", "229 (||||)", "229 (|||x|)", "229 nothing", "229 (!!!99999999999999999999!)", "229 (|||80|) (|||81|)", "229 (|1|1.2.3.4|80|)",
                 '257 "/a"', '257 "', "257 none", '257 """"', '257 "/a""b" x', "257", ""]
@@ -184,10 +200,10 @@ def run_into(chk, tier, seed):
                                 ("parse_epsv_response", aioftp.Client.parse_epsv_response, lambda r: isinstance(r, tuple) and isinstance(r[1], int)),
                                 ("parse_directory_response", aioftp.Client.parse_directory_response, lambda r: isinstance(r, pathlib.PurePosixPath))):
             cases.append({"entry": name, "outcome": classify(fn, p, typed), "desc": ["payload", 0, p], "steps": 0, "budget": 0,
-                          "entries_returned": 0, "lines_sent": 0, "unparsable": 0})
+                          "entries_returned": 0, "lines_sent": 0, "unparsable": 0, "dots": 0})
     for s in ["Jan 01 12:30", "Feb 29 12:30", "Feb 30 12:30", "Jan 01  2001", "", "xx", "Jan 1", "13/13/13", "Feb 29  1900", "Dec 31 24:00", "٣٣٣ ٣٣ ٣٣:٣٣"]:
         cases.append({"entry": "parse_ls_date", "outcome": classify(aioftp.Client.parse_ls_date, s, lambda r: isinstance(r, str)), "desc": ["date", 0, s],
-                      "steps": 0, "budget": 0, "entries_returned": 0, "lines_sent": 0, "unparsable": 0})
+                      "steps": 0, "budget": 0, "entries_returned": 0, "lines_sent": 0, "unparsable": 0, "dots": 0})
     # listers: '.' and '..' entries, directory cycles by name, unparsable lines, for MLSD and LIST servers
     dot = b"Type=cdir; .\r\nType=pdir; ..\r\nType=dir; sub\r\nType=file;Size=1; f\r\n"
     dotl = b"drwxr-xr-x 2 o g 0 Jan 01 12:30 .\r\ndrwxr-xr-x 2 o g 0 Jan 01 12:30 ..\r\ndrwxr-xr-x 2 o g 0 Jan 01 12:30 sub\r\n-rw-r--r-- 1 o g 1 Jan 01 12:30 f\r\n"
@@ -197,6 +213,8 @@ def run_into(chk, tier, seed):
         ({"top": b"Type=dir; a\r\n", "top/a": b"Type=dir; ../a\r\n", "*": b""}, True),
         ({"top": b"garbage line\r\n-rw-r--r-- 1 o g 1 Jan 01 12:30 f\r\n"}, False),
         ({"top": b"\xff\xfe\r\n"}, True), ({"top": b"\xff\xfe\r\n"}, False), ({"top": b"Type=dir;\r\n"}, True), ({"top": b"\r\n\r\n"}, False),
+        ({"top": b"lrwxrwxrwx 1 o g 4 Jan 01 12:30 current - releases\r\n-rw-r--r-- 1 o g 1 Jan 01 12:30 f\r\n"}, False),
+        ({"top": b"lrwxrwxrwx 1 o g 4 Jan 01 12:30 a -> b/\r\n-rw-r--r-- 1 o g 1 Jan 01 12:30 f\r\n", "top/a": b""}, False),
         ({"top": b"no newline at end"}, True), ({"top": b"Type=dir; " + b"x" * 70000 + b"\r\n"}, True),
     ]
     for listings, mlsd in scen:
